@@ -24,7 +24,11 @@ Misc == << T_rec(<<P("u8"), P("u64"), P("u8")>>), T_rec(<<P("u8"), P("u16"), P("
            T_flags(1), T_flags(8), T_flags(9), T_flags(16), T_flags(17), T_flags(32), T_flags(33), T_flags(64), T_flags(65),
            T_own, T_borrow, T_future(NoT), T_future(P("string")), T_stream(P("u8")), T_stream(NoT),
            T_flist(P("u8"), 1), T_flist(P("u32"), 3), T_flist(P("string"), 3), T_flist(P("u64"), 4),
-           T_res(NoT, NoT), T_opt(T_opt(P("u8"))) >>
+           T_res(NoT, NoT), T_opt(T_opt(P("u8"))),
+           \* variants that own heap data at a non-zero offset of their container (payload offsets relative to the variant, not the block)
+           T_tup(<<P("u32"), T_res(P("string"), P("string"))>>), T_rec(<<P("u64"), T_opt(P("string"))>>),
+           T_list(T_rec(<<P("u64"), T_opt(P("string"))>>)), T_tup(<<P("u8"), T_var(<<P("f32"), P("string")>>)>>),
+           T_rec(<<P("u8"), T_opt(T_list(P("u16"))), T_res(P("u64"), T_list(P("string")))>>) >>
          \o [i \in 1..Len(MapKeys) |-> T_map(MapKeys[i], P("u32"))]
 
 Level1 == PT \o FlattenSeq([i \in 1..NP |-> Unary(PT[i])])
